@@ -118,7 +118,8 @@ def run_case(seed: int, idx: int, res: UnitResult, keep: list | None = None) -> 
     desc = b.describe(keep)
     desc.update({"fault": show(fault), "observer": "callbacks" if as_callbacks else "object"})
     sample = {"case": desc, "received": {o.name: o.kinds for o in lab.observers[:6]}, "late_emissions": late, "faults_fired": fired}
-    res.case(key=desc, nontrivial=received > 0 and (late > 0 or fired > 0), sample=sample)
+    nontrivial = received > 0 and (late > 0 or fired > 0)
+    res.case(key=desc, nontrivial=nontrivial, sample=sample if nontrivial else None)
     for n in b.opnames(keep):
         res.note("ops", n)
     res.count("depth_%d" % len(b.kept(keep)))
